@@ -14,10 +14,10 @@ PKG=$(grep -m1 '^+++ b/' $D/patch.diff | sed 's#^+++ b/##; s#/[^/]*$##')
 TESTS=$(grep -ho '^func Test[A-Za-z0-9_]*' $D/demo_test.go | sed 's/func //' | paste -sd'|')
 cd $WT
 cp $D/demo_test.go $PKG/zz_seed_demo_test.go
-go test -count=1 -run "^($TESTS)\$" ./$PKG > /tmp/confirm-$NAME-clean.log 2>&1; CLEAN=$?
+go test ${SEED_TAGS:+-tags $SEED_TAGS} -count=1 -run "^($TESTS)\$" ./$PKG > /tmp/confirm-$NAME-clean.log 2>&1; CLEAN=$?
 git apply $D/patch.diff; APPLY=$?
 go build ./... > /tmp/confirm-$NAME-build.log 2>&1; BUILD=$?
-go test -count=1 -run "^($TESTS)\$" ./$PKG > /tmp/confirm-$NAME-patched.log 2>&1; PATCHED=$?
+go test ${SEED_TAGS:+-tags $SEED_TAGS} -count=1 -run "^($TESTS)\$" ./$PKG > /tmp/confirm-$NAME-patched.log 2>&1; PATCHED=$?
 rm $PKG/zz_seed_demo_test.go
 go test -count=1 ./$PKG/... > /tmp/confirm-$NAME-suite.log 2>&1; SUITE=$?
 cd /
